@@ -124,7 +124,8 @@ def gen_plan(prop, run_seed, tier):
                     scorer=scorer,
                     batch=s.random() < 0.4, policy=policy, poison=f.choice(POISONS), poison_seed=f.randrange(2**31),
                     entropy=s.randrange(2**31), order_seed=s.randrange(2**31),
-                    failstop=f.choice(["masked-row", "negative", "nan", "cli-negative", "cli-nan"]))
+                    failstop=f.choice(["masked-row", "negative", "nan", "cli-negative", "cli-nan"]),
+                    second_round=s.random() < 0.3)
     kinds = ["f:pairwise", "f:permute", "f:segregate", "f:merge_min", "f:merge_top_bottom", "f:fixed_size", "f:optimal_size",
              "f:n_per_sample", "f:ensemble", "f:cover", "f:split", "f:random_holdout", "f:random_scorer", "f:dbal_subsample",
              "f:score_chunk", "f:policy", "f:select", "f:sample:sdc", "f:sample:sdci",
@@ -304,12 +305,52 @@ def _c04(plan, scratch, log, stats, violation):
                       f"artefact {sa} differs between twins that differ only in masked observation values (poison {plan['poison']}, "
                       f"scorer {plan['scorer']})")
             break
+    # ---- second round: the selected plate is revealed in both twins (twin B's cells of that plate are
+    # healed first, so the twins still differ only in cells that are masked at every compared point)
+    sel_a = [d for s_, d in a if s_ == "selected"][0]
+    if plan.get("second_round") and not viol_seen(violation) and sel_a is not None and sel_a >= 0 and a == b:
+        import h5py
+
+        with h5py.File(clean, "r") as f:
+            true_obs = f["observations"][:]
+            pids = f["plate_ids"][:]
+        with h5py.File(poisoned, "r+") as f:
+            o = f["observations"][:]
+            o[pids == sel_a] = true_obs[pids == sel_a]
+            f["observations"][...] = o
+        stats.probe("second_round_with_heal")
+        nxt = {}
+        try:
+            for tag, src in (("A2", clean), ("B2", poisoned)):
+                adv = scratch.file(f"{tag}_advanced_screen.h5")
+                pipe.p_reveal(src, adv, [sel_a], entropy=h64(plan["entropy"], "reveal"))
+                nxt[tag] = adv
+            a2, recs_a2 = _round(plan, scratch, nxt["A2"], "A2", log, stats)
+            b2, _ = _round(plan, scratch, nxt["B2"], "B2", log, stats)
+        except pipe.HarnessError:
+            raise
+        except Exception as e:
+            log.ev("second-round-raised", type(e).__name__)
+            a2 = b2 = None
+        if a2 is not None:
+            stats.oracle_evals += len(a2)
+            for (sa, da), (sb, db) in zip(a2, b2):
+                if sa != sb or da != db:
+                    violation("C04.masked-value-influence", f"{sa.split(':')[0]}:{model}:round2",
+                              f"second round: artefact {sa} differs between twins that differ only in still-masked values (poison {plan['poison']})")
+                    break
+            scr2 = Screen.load_h5(nxt["A2"])
+            _training_set_oracle(plan, ref.content_rows(scr2), ref.row_ids(scr2), recs_a2, stats, violation)
     # ---- (b) training-set exactness against the reference rows
     _training_set_oracle(plan, rows, ids, recs_a, stats, violation)
     # ---- (c) fail-stop
     _failstop(plan, scratch, screen, rows, stats, violation, log)
     if n_masked > 0:
         stats.key(model, plan["scorer"], plan["poison"], plan["n_chains"], plan["dist_chunks"], plan["score_chunks"], plan["batch"])
+
+
+def viol_seen(violation):
+    return False
 
 
 def _logit32(x):
